@@ -94,7 +94,7 @@ fn all_closures(thorough: bool) -> Vec<Clo> {
     for t in trees {
         let body = rename(&t).full();
         if seen.insert(body.clone()) {
-            v.push(Clo { name: format!("generated:{}", crate::c07::shape_class(&t)), defs: vec![format!("f = (x) => {}", body)], nargs: 1 });
+            v.push(Clo { name: format!("generated:{}", crate::c07::shape_class(&t)), defs: vec![format!("f = (x) => ({})", body)], nargs: 1 });
         }
     }
     v
